@@ -225,6 +225,9 @@ def one_dataset(obs, rng, conv, spec, workdir=None):
         if not misses:
             obs.cls('points:all-hit')
         df = None
+        omit_default = rng.random() < 0.5          # 'error' is the documented default of every entry point: sometimes not passed
+        if policy == 'error' and omit_default:
+            obs.cls('policy:error-by-default')
         if api == 'extract_dataframe':
             from emsarray.operations import point_extraction
             df = pandas.DataFrame({'plon': [p.x for p in pts], 'plat': [p.y for p in pts],
@@ -241,18 +244,18 @@ def one_dataset(obs, rng, conv, spec, workdir=None):
             elif index_style == 'shuffled':
                 df.index = rng.permutation(len(pts))
             obs.cls('dataframe-index:' + index_style)
-            kwargs = {'missing_points': policy}
+            kwargs = {'missing_points': policy} if not (policy == 'error' and omit_default) else {}
             if pdim is not None:
                 kwargs['point_dimension'] = pdim
             call = lambda: point_extraction.extract_dataframe(ds, df, ('plon', 'plat'), **kwargs)   # noqa: E731
         elif api == 'extract_points':
             from emsarray.operations import point_extraction
-            kwargs = {'missing_points': policy}
+            kwargs = {'missing_points': policy} if not (policy == 'error' and omit_default) else {}
             if pdim is not None:
                 kwargs['point_dimension'] = pdim
             call = lambda: point_extraction.extract_points(ds, pts, **kwargs)   # noqa: E731
         else:
-            kwargs = {'missing_points': policy}
+            kwargs = {'missing_points': policy} if not (policy == 'error' and omit_default) else {}
             if pdim is not None:
                 kwargs['point_dimension'] = pdim
             call = lambda: ems.select_points(pts, **kwargs)   # noqa: E731
